@@ -12,6 +12,9 @@ CHECKS = {
          "Stateful generated sequences of <=12 matrix operations on operands from every public constructor, every entry compared with a dense model after every step; exhaustive over all (n<=5 quick / 8 thorough, ml, mu) x constructor x single operation.",
          "Dense model in the harness is the specification; numeric (==) equality of entries.", "DESIGN.md §4 C17"),
 }
+CHECKS["C03"] = ("property-based testing (proptest): generated configurations, invariant over the returned Solution and the call log of an instrumented IVP",
+         "Generated search over problems x spans (1e-11..1e6, both directions, infinite with terminal event) x six methods x first_step/max_step/t_eval/dense/events/max_steps combinations; every ode/events/jac call time is recorded by an instrumented IVP and the status<->coverage equivalences are evaluated on each run.",
+         "Time slack 4 ulp; 'xend to rounding' = 1e-12 + 32 ulp; panics/hangs are owned by C04.", "DESIGN.md §4 C03")
 PENDING = {}
 
 def main():
